@@ -8,6 +8,7 @@ package msgpack
 
 import (
 	"math"
+	"math/big"
 	"strings"
 
 	"github.com/zclconf/go-cty/cty"
@@ -71,6 +72,31 @@ func c16NoNarrower(dec, orig cty.Value) bool {
 	return true
 }
 
+// c16NumSame: a decoded known number against the original: whole numbers and exact float64 values must come back
+// numerically identical; any other number must come back numerically identical or at least equal. (cty's Equals
+// compares shortest decimal texts, which differ between two numerically identical numbers of different precision
+// when the value needs many digits, e.g. 2^-1022 at 512 bits against the float64 the decoder builds: numerical
+// identity is what the statement asks of exact float64 values, so that is what is compared.)
+func c16NumSame(dec, orig cty.Value) bool {
+	if dec.Type() != cty.Number || !dec.IsKnown() || dec.IsNull() {
+		return false
+	}
+	d, o := dec.AsBigFloat(), orig.AsBigFloat()
+	if d.IsInf() || o.IsInf() {
+		return d.IsInf() && o.IsInf() && d.Sign() == o.Sign()
+	}
+	if d.Cmp(o) == 0 {
+		return true
+	}
+	if o.IsInt() {
+		return false
+	}
+	if _, acc := o.Float64(); acc == big.Exact {
+		return false
+	}
+	return dec.Equals(orig).True()
+}
+
 // c16Same compares a decoded value with the original, structurally.
 func c16Same(dec, orig cty.Value) bool {
 	if dec.IsMarked() || orig.IsMarked() {
@@ -78,6 +104,9 @@ func c16Same(dec, orig cty.Value) bool {
 	}
 	if dec.RawEquals(orig) {
 		return true
+	}
+	if orig.Type() == cty.Number && orig.IsKnown() && !orig.IsNull() {
+		return c16NumSame(dec, orig)
 	}
 	if !dec.Type().Equals(orig.Type()) {
 		return false
@@ -152,7 +181,10 @@ func verifC16Scalars() {
 	case 2:
 		v = []cty.Value{cty.PositiveInfinity, cty.NegativeInfinity, cty.NumberFloatVal(0.5), cty.NumberFloatVal(-2.25), cty.NumberFloatVal(1e300),
 			cty.MustParseNumberVal("0.1"), cty.MustParseNumberVal("18446744073709551616"), cty.MustParseNumberVal("-9223372036854775809"),
-			cty.MustParseNumberVal("123456789012345678901234567890.5")}[vChoice("n", 9)]
+			cty.MustParseNumberVal("123456789012345678901234567890.5"),
+			// magnitudes at and below the float64 exponent range, with few significant bits (512-bit precision)
+			c16Tiny(1.5, -1200), c16Tiny(1.25, -1073), c16Tiny(-1, -1075), c16Tiny(1.5, -1074), c16Tiny(1, -1022), c16Tiny(1.5, 1100),
+			cty.MustParseNumberVal("1e-400"), cty.MustParseNumberVal("-1e400")}[vChoice("n", 17)]
 	case 3:
 		v = cty.BoolVal(vBool("b"))
 	case 4:
@@ -179,15 +211,48 @@ func verifC16Scalars() {
 		b, err := Marshal(v, cty.Number)
 		if err == nil {
 			got, err := Unmarshal(b, cty.Number)
-			vAssert("number-comes-back-equal", err == nil && got.Equals(v).True())
+			vAssert("number-comes-back-equal", err == nil && c16NumSame(got, v))
 		}
 	}
 	vReach("end")
 }
 
+// c16Tiny: mant * 2^exp at 512-bit precision.
+func c16Tiny(mant float64, exp int) cty.Value {
+	f := new(big.Float).SetPrec(512).SetFloat64(mant)
+	two := new(big.Float).SetPrec(512).SetInt64(2)
+	for i := 0; i < exp; i++ {
+		f.Mul(f, two)
+	}
+	for i := 0; i > exp; i-- {
+		f.Quo(f, two)
+	}
+	return cty.NumberVal(f)
+}
+
+// c16HardNumbers: bounds that have no exact int64 or float64 form (and two that have), ascending.
+var c16HardNumbers = []string{"-1e400", "-18446744073709551617", "-0.1", "0", "0.30000000000000000001", "9007199254740993", "18446744073709551615",
+	"18446744073709551617", "123456789012345678901234567890.5", "1e400"}
+
 // c16Unknown: an unknown value of the given kind with symbolic refinements.
 func c16Unknown(tag string, kind int) cty.Value {
 	switch kind {
+	case 8: // number whose bounds come from the menu of numbers without an exact machine form
+		i := vChoice(tag+"-hlo", len(c16HardNumbers))
+		j := vChoice(tag+"-hhi", len(c16HardNumbers))
+		b := cty.UnknownVal(cty.Number).Refine()
+		loInc, hiInc := vBool(tag+"-loinc"), vBool(tag+"-hiinc")
+		if i > j || (i == j && !(loInc && hiInc)) {
+			vAssume(false)
+		}
+		b = b.NumberRangeLowerBound(cty.MustParseNumberVal(c16HardNumbers[i]), loInc)
+		if vChoice(tag+"-onlylo", 2) == 0 {
+			b = b.NumberRangeUpperBound(cty.MustParseNumberVal(c16HardNumbers[j]), hiInc)
+		}
+		if vBool(tag + "-notnull") {
+			b = b.NotNull()
+		}
+		return b.NewValue()
 	case 0: // number with optional bounds
 		b := cty.UnknownVal(cty.Number).Refine()
 		lo, hi := vInt(tag+"-lo", -1000, 1000), vInt(tag+"-hi", -1000, 1000)
@@ -247,7 +312,7 @@ func c16Unknown(tag string, kind int) cty.Value {
 
 // verifC16Unknowns: a single unknown value with symbolic refinements of every kind.
 func verifC16Unknowns() {
-	v := c16Unknown("u", vChoice("kind", 8))
+	v := c16Unknown("u", vChoice("kind", 9))
 	c16RoundTrip(v, v.Type())
 	vReach("end")
 }
